@@ -48,6 +48,10 @@ def add_kind(selector, kind, name):
     return selector.add_float_param(name, 0.0, 2.5)
   if kind == 'I':
     return selector.add_int_param(name, -1, 2)
+  if kind == 'Dp':
+    return selector.add_float_param(name, 1.0, 1.0)
+  if kind == 'Ip':
+    return selector.add_int_param(name, 1, 1)
   if kind == 'S':
     return selector.add_discrete_param(name, [0.5, 1, 2])
   if kind == 'Si':
@@ -68,7 +72,7 @@ def value_of(kind, vs):
   if kind == 'B':
     return vs          # stored as the strings 'True' / 'False'
   h = int(vs)
-  if kind in ('I', 'Si', 'Sn'):
+  if kind in ('I', 'Ip', 'Si', 'Sn'):
     return h // 2 if h % 2 == 0 else h / 2.0
   return h / 2.0
 
